@@ -705,6 +705,9 @@ class Slicer:
         """narrow mode: calls into workspace code and the runtime traits are value sources (atoms), not
         followed into their arguments; library calls (iterators, clone, deref, `?`, conversions) are transparent."""
         cal = c.callee or ''
+        d0 = c.defp or ''
+        if d0.startswith('core::ops::') or d0.startswith('core::clone::') or d0.startswith('core::convert::') or d0.startswith('core::iter::') or d0.startswith('core::borrow::'):
+            return False      # operator / conversion traits are value plumbing even when implemented in the workspace
         if cal in self.prog.fns:
             return True
         if cal.startswith('fil_actor') or cal.startswith('<fil_actor') or cal.startswith('fil_actors_runtime::runtime::'):
